@@ -214,6 +214,7 @@ Arguments track {P}.
 Arguments converge_check {P}.
 Arguments converge_scan {P}.
 Arguments last_bits {P}.
+Arguments opt_peqb {P}.
 
 Definition resp_state_eqb (a b : resp_state) : bool := resp_state_to_byte a =? resp_state_to_byte b.
 Definition sc_pay_eqb (a b : Z * option Z) : bool := (fst a =? fst b) && opt_eqb (snd a) (snd b).
